@@ -1349,7 +1349,18 @@ protected:
     check_growth:
         // [opt] grow the container
         if( grow_segment ) {
-            this->enable_segment( grow_segment );
+            // The element is already in the map and the result is decided: growing is an optimisation.
+            // If the allocation fails the segment stays unallocated (enable_segment takes its mark back)
+            // and a later insertion tries again; the outcome of this operation is reported as it is.
+#if TBB_USE_EXCEPTIONS
+            try
+#endif
+            {
+                this->enable_segment( grow_segment );
+            }
+#if TBB_USE_EXCEPTIONS
+            catch(...) {}
+#endif
         }
         if( tmp_n ) // if OpInsert only
             delete_node( tmp_n );
